@@ -40,6 +40,16 @@ func c18Gen(r *rand.Rand, tier string) []spec.Case {
 		out = append(out, spec.Case{Kind: c.Proto, P: spec.MustJSON(c)})
 		i++
 	}
+	// in-process test-mode servers that are cancelled after no host / one host used them
+	for _, pr := range protos {
+		for _, tm := range []string{"noconnect", "connect"} {
+			if tm == "connect" && pr == "grpcmux" {
+				continue
+			}
+			c := spec.C18Case{Proto: pr, TLS: "none", Launch: "inprocess", TestMode: tm}
+			out = append(out, spec.Case{Kind: "solo:testmode", P: spec.MustJSON(c)})
+		}
+	}
 	return out
 }
 
@@ -80,7 +90,14 @@ func c18Judge(c spec.Case, evs []spec.Event, d *Death) CaseResult {
 		viol("kill-hung", "Kill did not return within 30 s")
 		return res
 	}
-	if !o.Marker {
+	if p.TestMode != "" {
+		res.Class = fmt.Sprintf("%s|testmode-%s", p.Proto, p.TestMode)
+		res.Counters["testmode_servers"]++
+		if o.CloseChMs < 0 {
+			viol("testmode-closech-not-closed", "CloseCh of a test-mode server was not closed within 40 s of cancelling its context")
+		}
+	}
+	if !o.Marker && p.TestMode == "" {
 		return CaseResult{Verdict: "inconclusive", Inconcl: "the plugin did not exit gracefully (no marker): the property speaks about graceful exits", Class: res.Class}
 	}
 	res.Counters["graceful_shutdowns"]++
@@ -100,7 +117,9 @@ func c18Judge(c spec.Case, evs []spec.Event, d *Death) CaseResult {
 	if len(o.HostTmpLeft) > 0 {
 		viol("host-side-socket-left", fmt.Sprintf("after Kill, %d brokered-listener socket files created by the host side during the case remain in its temp dir: %v", len(o.HostTmpLeft), o.HostTmpLeft))
 	}
-	if o.GoAfter > o.GoBefore {
+	// (a client reattached to a test-mode server keeps its goroutines by design: its Kill is a no-op and
+	// its wait goroutine polls the pid of this very process)
+	if o.GoAfter > o.GoBefore && p.TestMode != "connect" {
 		viol("goroutines-left", fmt.Sprintf("%d goroutines with go-plugin frames before the case, %d still %d ms after Kill, e.g.\n%s", o.GoBefore, o.GoAfter, o.GoWaitMs, o.GoSample))
 	}
 	return res
@@ -117,7 +136,7 @@ func init() {
 				r.Inconcl = append(r.Inconcl, fmt.Sprintf("too few graceful shutdowns observed: %v", r.Counters))
 			}
 		},
-		Rule:        "cases = seeded histories (0-5 steps) of dispense / calls / brokered accept+dial host->plugin and plugin->host / stdio writes / a brokered listener the plugin accepts and keeps open (custom-runner launches), followed by Kill, x protocol (net/rpc, gRPC, gRPC+mux) x TLS (none, AutoMTLS) x launch (Cmd, custom runner with socket dir) x plugin cleanup time; real subprocesses with private sandboxes on both sides; only graceful exits (cleanup marker present) are judged. Monitors: listing of the plugin's sandbox and the host-side temp dir, and a goroutine dump of the host process filtered on go-plugin frames, compared with the count before the case and polled up to 10 s (one case at a time per host process). Class = protocol|TLS|launch|step kinds",
+		Rule:        "cases = seeded histories (0-5 steps) of dispense / calls / brokered accept+dial host->plugin and plugin->host / stdio writes / a brokered listener the plugin accepts and keeps open (custom-runner launches), followed by Kill, x protocol (net/rpc, gRPC, gRPC+mux) x TLS (none, AutoMTLS) x launch (Cmd, custom runner with socket dir) x plugin cleanup time; real subprocesses with private sandboxes on both sides, plus in-process test-mode servers (every protocol) cancelled after no host / one reattached host used them; only graceful exits (cleanup marker present) are judged. Monitors: listing of the plugin's sandbox and the host-side temp dir, and a goroutine dump of the host process filtered on go-plugin frames, compared with the count before the case and polled up to 10 s (one case at a time per host process). Class = protocol|TLS|launch|step kinds",
 		Assumptions: []string{"the harness closes connections it dialled; servers started by AcceptAndServe are go-plugin's to stop", "goroutines started by grpc-go for a ClientConn are not go-plugin's"},
 	})
 }
